@@ -37,8 +37,9 @@ const banner = "THIS SHOULD NOT HAPPEN" // client/network/tick.go, Run()'s defer
 type runCase struct {
 	Incoming  bool  `json:"incoming"`
 	Syncing   bool  `json:"syncing"`
-	Handshake bool  `json:"handshake"` // a properly framed good version message goes first
-	KeyFirst  bool  `json:"key_first"` // ... followed by a properly signed xauth (AES context + authorised)
+	Handshake bool  `json:"handshake"`           // a properly framed good version message goes first
+	KeyFirst  bool  `json:"key_first"`           // ... followed by a properly signed xauth (AES context + authorised)
+	Bystander bool  `json:"bystander,omitempty"` // another peer is connected and has completed its handshake
 	Frames    []msg `json:"frames"`
 }
 
@@ -164,6 +165,17 @@ func runRun(rc runCase, cp *capture) (err error) {
 	if cp != nil {
 		off = cp.mark()
 	}
+	var by *network.OneConnection
+	if rc.Bystander {
+		by = newConn(true, false, 200)
+		v := network.VerifNewMsg("version", goodVersion(bystanderNonce, "/Satoshi:25.0.0/", baseBlocks), false, false)
+		if err := guarded("handshake of the bystander connection", func() { dispatch(by, v) }); err != nil {
+			return err
+		}
+		by.Mutex.Lock()
+		by.SendBufCons = by.SendBufProd
+		by.Mutex.Unlock()
+	}
 	c := newConn(rc.Incoming, false, 0)
 	mine, theirs := net.Pipe()
 	c.Conn = theirs
@@ -272,10 +284,30 @@ func runRun(rc runCase, cp *capture) (err error) {
 			return fmt.Errorf("after Run() returned, %v", err)
 		}
 	}
+	network.Mutex_net.Lock()
+	others := make([]*network.OneConnection, 0, len(network.OpenCons))
+	for _, v := range network.OpenCons {
+		if v != c {
+			others = append(others, v)
+		}
+	}
+	network.Mutex_net.Unlock()
+	for _, v := range others {
+		if err := lockWithin(fmt.Sprintf("the mutex of another connection in OpenCons (ConnID %d)", v.ConnID), &v.Mutex, 3*time.Second); err != nil {
+			wedged.Store(true)
+			return fmt.Errorf("after Run() returned, %v", err)
+		}
+	}
+	if err := walkOpenCons(); err != nil {
+		return err
+	}
 	if err := unexportedLocksFree(); err != nil {
 		return err
 	}
 	harvestCounters()
+	if by != nil {
+		releaseConn(by)
+	}
 	for len(network.NetTxs) > 0 {
 		<-network.NetTxs
 	}
@@ -292,7 +324,12 @@ func genRunCase(t *rapid.T) runCase {
 	g := newG(t)
 	rc := runCase{Incoming: g.chance(60), Syncing: g.chance(15), Handshake: g.chance(75)}
 	rc.KeyFirst = rc.Handshake && g.chance(35)
+	rc.Bystander = g.chance(30)
 	seq := g.sequence(12)
+	if rc.Bystander && !rc.Handshake && g.chance(50) {
+		v := msg{Cmd: "version", Pl: hexs(goodVersion(1, "/Satoshi:26.0.0/", baseBlocks)), Kind: "wf", Dyn: "ver_peernonce"}
+		seq = append([]msg{v}, seq...)
+	}
 	for i := range seq {
 		m := seq[i]
 		if m.Cmd == "#tick" {
@@ -327,6 +364,12 @@ func TestRunLoop(t *testing.T) {
 		}
 		if rc.KeyFirst {
 			r.Class("authorised_with_key")
+		}
+		if rc.Bystander {
+			r.Class("bystander_connection")
+			if !rc.Handshake && len(rc.Frames) > 0 && rc.Frames[0].Dyn == "ver_peernonce" && rc.Frames[0].Frame == "ok" {
+				r.Class("version/same_nonce_as_bystander")
+			}
 		}
 		seen := map[string]bool{}
 		nt := false
